@@ -29,7 +29,7 @@ CLAIM = {
 
 
 def run(ctx):
-    ctx.regen(["scantok"])
+    ctx.regen(["scantok", "scanconst"])
     sc.gen_notes(ctx)
     ctx.prove("C15")
     R = sc.Runner(ctx)
